@@ -156,6 +156,9 @@ func genSCase(r *drv.Rng, prof string) drv.SCase {
 	if prof == "C06" && !c.NoFwd && r.Chance(1, 5) {
 		return genHeldFail(g)
 	}
+	if prof == "C06" && !c.NoFwd && r.Chance(1, 12) {
+		return genMassResolve(g)
+	}
 	s1 := g.connect(true)
 	g.announce(s1, drv.U128{Hi: uint64(r.Intn(2)), Lo: uint64(1 + r.Intn(3))})
 	steps := 6 + r.Intn(16)
@@ -181,7 +184,9 @@ func genSCase(r *drv.Rng, prof string) drv.SCase {
 			g.opsMsg(s, n)
 		case x < 68:
 			id := genID(r)
-			if g.max != nil && r.Chance(1, 2) {
+			if g.last[s] != nil && r.Chance(1, 6) {
+				id = *g.last[s] // the session repeats its own last id (after a tie this takes the role back)
+			} else if g.max != nil && r.Chance(1, 2) {
 				switch r.Intn(4) {
 				case 0:
 					id = *g.max
@@ -293,6 +298,56 @@ func genHeldFail(g *srvGen) drv.SCase {
 		id = id2
 	}
 	mk(drv.OpSpec{NI: gi, Kind: "DELETE", T: "nhg", Key: 1})
+	g.add(drv.SStep{K: "get", Get: &drv.GetSpec{NI: "all", AFT: "ALL"}})
+	return *g.c
+}
+
+// genMassResolve: many entries, in several instances, are held for one missing group; one operation then resolves
+// them all, so that a single response carries many results (per id: RIB before FIB, each exactly once).
+func genMassResolve(g *srvGen) drv.SCase {
+	r := g.r
+	s := g.connect(true)
+	if r.Chance(2, 3) { // mostly with FIB acknowledgements: two results per resolved operation
+		g.c.Steps[len(g.c.Steps)-1].Ack = 1
+		g.fib[s] = true
+	}
+	id := drv.U128{Hi: uint64(r.Intn(2)), Lo: uint64(1 + r.Intn(3))}
+	g.announce(s, id)
+	mk := func(ops ...drv.OpSpec) {
+		st := drv.SStep{K: "ops", S: s}
+		for _, op := range ops {
+			op.ID = g.id()
+			e := id
+			op.Elec = &e
+			st.Ops = append(st.Ops, op)
+		}
+		g.add(st)
+	}
+	gi := drv.Pick(r, 1, 2, 3)
+	var held []drv.OpSpec
+	for _, ni := range []int{1, 2, 3} {
+		for k := uint64(1); k <= 3; k++ {
+			held = append(held, drv.OpSpec{NI: ni, Kind: "ADD", T: "v4", Key: k, NHG: 1, NHGN: gi})
+		}
+		for k := uint64(1); k <= 2; k++ {
+			held = append(held, drv.OpSpec{NI: ni, Kind: "ADD", T: "v6", Key: k, NHG: 1, NHGN: gi})
+		}
+		for _, k := range []uint64{16, 100, 200} {
+			held = append(held, drv.OpSpec{NI: ni, Kind: "ADD", T: "mpls", Key: k, NHG: 1, NHGN: gi})
+		}
+	}
+	r.Shuffle(len(held), func(i, j int) { held[i], held[j] = held[j], held[i] })
+	held = held[:8+r.Intn(len(held)-7)]
+	for len(held) > 0 { // sent in requests of 1..6 operations
+		n := 1 + r.Intn(6)
+		if n > len(held) {
+			n = len(held)
+		}
+		mk(held[:n]...)
+		held = held[n:]
+	}
+	mk(drv.OpSpec{NI: gi, Kind: "ADD", T: "nh", Key: 1})
+	mk(drv.OpSpec{NI: gi, Kind: "ADD", T: "nhg", Key: 1, NHs: [][2]uint64{{1, 1}}}) // resolves them all
 	g.add(drv.SStep{K: "get", Get: &drv.GetSpec{NI: "all", AFT: "ALL"}})
 	return *g.c
 }
@@ -456,6 +511,11 @@ func genC09(g *srvGen) drv.SCase {
 		}
 		return drv.SStep{K: "get", Get: &drv.GetSpec{NI: "all", AFT: "ALL"}}
 	}
+	if r.Chance(1, 5) {
+		// a session that connects and stays silent: it holds the default parameters, which every negotiation is compared with
+		g.add(drv.SStep{K: "connect", S: 9})
+		g.live[9] = true
+	}
 	for s := 1; s <= nsess; s++ {
 		g.add(drv.SStep{K: "connect", S: s})
 		g.live[s] = true
@@ -530,7 +590,8 @@ func (e *electionTracker) mustReject(s int, op drv.OpSpec) bool {
 
 func runOracle(prop string, c drv.SCase, x *drv.SRun, obs []drv.SObs, snaps []string) string {
 	el := &electionTracker{last: map[int]*drv.U128{}}
-	owner := map[uint64]int{}     // op id -> session that sent it
+	liveParams := map[int][3]int{} // C09: session -> (redundancy, persistence, ack type) it holds
+	owner := map[uint64]int{}      // op id -> session that sent it
 	terminal := map[string]string{} // "sess/id" -> FAILED | RIB_PROGRAMMED
 	fibAck := map[string]bool{}
 	negFib := map[int]bool{}
@@ -648,6 +709,30 @@ func runOracle(prop string, c drv.SCase, x *drv.SRun, obs []drv.SObs, snaps []st
 		if prop == "C09" {
 			if p := checkC09(st, o, i, el, x); p != "" {
 				return p
+			}
+			// parameters are accepted only if every other live session - negotiated or not - holds the same ones
+			// (a session that has connected and not negotiated holds the defaults: ALL_PRIMARY / DELETE / RIB_ACK)
+			switch {
+			case st.K == "connect":
+				liveParams[st.S] = [3]int{0, 0, 0}
+			case st.K == "params" && len(o.Resps) == 1 && o.Resps[0].GetSessionParamsResult() != nil && o.End == nil:
+				// what the server keeps of them: elected-primary?, preserve?, FIB acknowledgements?
+				b := func(x bool) int {
+					if x {
+						return 1
+					}
+					return 0
+				}
+				mine := [3]int{b(st.Red == 1), b(st.Pers == 1), b(st.Ack == 1)}
+				for other, p := range liveParams {
+					if other != st.S && p != mine {
+						return fmt.Sprintf("step %d: session %d's parameters %v were accepted although live session %d holds %v", i, st.S, mine, other, p)
+					}
+				}
+				liveParams[st.S] = mine
+			}
+			if o.End != nil || st.K == "close" || st.K == "abort" {
+				delete(liveParams, st.S)
 			}
 		}
 		el.observe(st, o)
@@ -769,6 +854,9 @@ func checkC09(st drv.SStep, o drv.SObs, i int, el *electionTracker, x *drv.SRun)
 			return fmt.Sprintf("step %d: a zero election id was answered (%s) instead of ending the RPC with InvalidArgument", i, drv.OutText(drv.ObsOut{Resps: o.Resps}))
 		case st.K == "multi", st.K == "none":
 			return fmt.Sprintf("step %d: a %s message was answered (%s) instead of ending the RPC", i, st.K, drv.OutText(drv.ObsOut{Resps: o.Resps}))
+		case st.K == "ops" && len(st.Ops) > 0 && st.Ops[0].Elec == nil && st.Ops[0].NI >= 1 && st.Ops[0].NI <= 3 && st.Ops[0].Kind != "OTHER":
+			// the first operation names an existing instance and carries no election id: whoever sends it
+			return fmt.Sprintf("step %d: an operation without election id was answered (%s) instead of ending the RPC with FailedPrecondition", i, drv.OutText(drv.ObsOut{Resps: o.Resps}))
 		}
 	}
 	if o.End == nil || x.Sess[st.S] == nil {
